@@ -151,7 +151,8 @@ def observe(case):
             return {"t": "inf"}
         q = recover(r)
         whole = {"ok": True, "b": limbs(int(r))} if r == int(r) else none_whole
-        return {"t": "float", "b": limbs(0), "q": q, "whole": whole}
+        fn, fd = r.as_integer_ratio()
+        return {"t": "float", "b": limbs(0), "q": q, "whole": whole, "fn": limbs(fn), "fd": limbs(fd)}
     return {"t": "exc", "cls": "returned:" + type(r).__name__}
 
 
@@ -317,7 +318,7 @@ def run(ctx, cases=None):
     res.rule += " | non-trivial = distinct (tree, context) cases that the specification judges (not skipped as inexact)"
     res.extra.update({"validator": st, "not_judged_or_noted": notes, "observed_kinds": {k: sum(1 for e in events if e["obs"]["t"] == k) for k in ("int", "float", "nan", "inf", "exc")}})
     res.samples = [{"term": cases[k]["term"], "ctx": cases[k]["ctx"], "observed": events[k]["obs"]} for k in (len(cases) // 7, len(cases) // 2)]
-    res.assumptions = ["float results are judged only when the exact value is a rational with numerator and denominator below 32768 (recovered within 4 ulp); transcendental powers are not judged",
+    res.assumptions = ["float results are judged only when the exact value is a rational with numerator and denominator below 32768: recovered within 4 ulp, or within 2^-44 of the computation's magnitude (forward error bound, so cancellation cannot raise a false alarm); transcendental powers are not judged",
                        "an integer-valued float result of an integer-pure tree is accepted when exactly equal (noted)"]
     for eid, cl in sorted(fails.items()):
         cl = [c for c in cl if not c.startswith("note_")]
